@@ -24,7 +24,7 @@ func (c03) Size(tier string) Size {
 	return Size{Batches: 16, Cases: 1500}
 }
 func (c03) Rule() string {
-	return "case = document as in C02 (every primary-data kind, 0..n included, meta, errors, links, any prefix with/without trailing slash, IDs and soft type names with characters JSON must escape) marshaled once as given and once with its included list rebuilt through a random sequence of Document.Include calls that repeats resources and re-includes primary-data members, with the primary data held in SoftCollection, WrapperCollection, Resources (members of different types may share an ID) and the collection Range returns; also documents with data AND errors, and with included but no data. Oracle: independent structure validator over the output bytes (valid JSON, no duplicate members, top-level object with jsonapi and links.self, data xor errors, included only with data, string type/id, links.self == prefix+type+id, relationship links and data shapes, and - when included was built through Include only - no type/ID pair twice across data and included). Thorough additionally re-parses every output with python3's json module. Non-trivial = document with included resources, a collection of >= 2 or a relationship with data; distinct = spec + include sequence hash."
+	return "case = document as in C02 (every primary-data kind, 0..n included, meta, errors, links, any prefix with/without trailing slash, IDs and soft type names with characters JSON must escape) marshaled once as given and once with its included list rebuilt through a random sequence of Document.Include calls that repeats resources and re-includes primary-data members, with the primary data held in SoftCollection, WrapperCollection, Resources (members of different types may share an ID), a caller-written Collection that declares the type of one member and holds a mixed content, and the collection Range returns; prefixes include percent signs; also documents with data AND errors, and with included but no data. Oracle: independent structure validator over the output bytes (valid JSON, no duplicate members, top-level object with jsonapi and links.self, data xor errors, included only with data, string type/id, links.self == prefix+type+id, relationship links and data shapes, and - when included was built through Include only - no type/ID pair twice across data and included). Thorough additionally re-parses every output with python3's json module. Non-trivial = document with included resources, a collection of >= 2 or a relationship with data; distinct = spec + include sequence hash."
 }
 func (c03) Assumptions() []string {
 	return []string{"the self-link clause is judged on resources with non-empty id and type; raw concatenation and path-escaped type/id are both accepted",
@@ -39,6 +39,17 @@ func (c03) Floors(tier string, c map[string]int64) []string {
 	}
 	return out
 }
+
+// ownCollection is a Collection written outside the library.
+type ownCollection struct {
+	typ   jsonapi.Type
+	items []jsonapi.Resource
+}
+
+func (o *ownCollection) GetType() jsonapi.Type     { return o.typ }
+func (o *ownCollection) Len() int                  { return len(o.items) }
+func (o *ownCollection) At(i int) jsonapi.Resource { return o.items[i] }
+func (o *ownCollection) Add(r jsonapi.Resource)    { o.items = append(o.items, r) }
 
 type c03include struct {
 	Res          *ResSpec `json:"res"`
@@ -62,6 +73,21 @@ func (m c03) marshalAndValidate(c *Ctx, d *DocSpec, incl []c03include, useRange 
 				holder := b.Doc
 				holder.Data = *col
 				c.Count("documents_with_resources_value")
+			}
+		}
+		if strings.HasPrefix(tag, "own-collection") {
+			// a Collection implementation written by the caller: it declares the type of its first member and
+			// holds whatever it was given
+			if col, ok := b.Doc.Data.(jsonapi.Collection); ok && col.Len() > 0 {
+				own := &ownCollection{typ: col.At(0).GetType()}
+				if len(tag)%2 == 0 {
+					own.typ = col.At(col.Len() - 1).GetType()
+				}
+				for i := 0; i < col.Len(); i++ {
+					own.items = append(own.items, col.At(i))
+				}
+				b.Doc.Data = own
+				c.Count("documents_with_caller_written_collection")
 			}
 		}
 		if useRange {
@@ -386,6 +412,8 @@ func (m c03) Case(c *Ctx, r *RNG) {
 		// the collection given as a Resources VALUE (not a pointer): refused today; if a library accepts it, the
 		// document it writes is judged like any other
 		m.marshalAndValidate(c, d, incl, false, "resources-value/via-include")
+		m.marshalAndValidate(c, d, incl, false, "own-collection/via-include")
+		m.marshalAndValidate(c, d, incl, false, "own-collection/via-include/")
 	}
 }
 
